@@ -146,7 +146,9 @@ class RRELNavigation(RRELBase):
     def __repr__(self):
         if self.fixed_name is not None:
             assert not self.consume_name
-            return "'" + self.fixed_name + "'~" + self.name
+            # Use the delimiter the literal can be read back with.
+            quote = '"' if "'" in self.fixed_name.replace("\\'", "") else "'"
+            return quote + self.fixed_name + quote + "~" + self.name
         else:
             return self.name if self.consume_name else "~" + self.name
 
